@@ -186,7 +186,9 @@ impl<'a> Gen<'a> {
                 }
                 9..=11 if depth > 0 && self.loop_vars.len() < LOOP_VARS.len() => {
                     let v = LOOP_VARS[self.loop_vars.len()];
-                    let (from, to, step) = match self.rng.gen_range(0..6) {
+                    let own_to = format!("{}+2", v);
+                    let (from, to, step) = match self.rng.gen_range(0..7) {
+                        6 => ("1", own_to.as_str(), ""),       // the limit reads the loop variable's value from BEFORE the loop
                         0 => ("1", "3", ""),
                         1 => ("0", "2", " STEP 1"),
                         2 => ("3", "1", " STEP -1"),
